@@ -67,6 +67,25 @@ class FnFX:
                 self.init_of[self.peel(ini["n"])] = "member"
         self.unknown = set()
 
+    def fn_of_local(self, did):
+        """a local function pointer that is only ever given the address of one function: that function's id"""
+        f = self.f
+        targets = set()
+        d = self.decl.get(did)
+        vals = [d["init"]] if d is not None and d.get("init", -1) >= 0 else []
+        for n in f.nodes:
+            if n["k"] == "BinaryOperator" and n["op"] == "=" and f.nodes[self.peel(n["ch"][0])].get("d") == did:
+                vals.append(n["ch"][1])
+        for v in vals:
+            an = f.nodes[self.peel(v)]
+            if an["k"] == "UnaryOperator" and an.get("op") == "&":
+                an = f.nodes[self.peel(an["ch"][0])]
+            if an["k"] == "DeclRefExpr" and an.get("dk") in ("func", "method") and an.get("fd") is not None:
+                targets.add(an["fd"])
+            else:
+                return None
+        return targets.pop() if len(targets) == 1 else None
+
     def peel(self, nid):
         f = self.f
         while f.nodes[nid]["k"] in PASS + ("ImplicitCastExpr", "MaterializeTemporaryExpr") and f.nodes[nid].get("ch"):
@@ -415,6 +434,8 @@ class FnFX:
                             fa[i] = ("fn", an["fd"])
                         elif an["k"] == "DeclRefExpr" and an.get("dk") == "param":
                             fa[i] = ("param", self.pidx.get(an["d"]))
+                        elif an["k"] == "DeclRefExpr" and an.get("dk") == "var" and an.get("d") in self.decl and self.fn_of_local(an["d"]) is not None:
+                            fa[i] = ("fn", self.fn_of_local(an["d"]))
                         elif an["k"] in ("CXXDefaultArgExpr", "CXXNullPtrLiteralExpr", "GNUNullExpr") or (an["k"] == "IntegerLiteral" and an.get("cv") == 0):
                             pass   # a null function pointer: nothing to call
                         else:
